@@ -254,6 +254,12 @@ M("c06-share-hard-late", "C06", "share increments the reference count first and 
    "        atomic_fetch_add(&data->ref.soft, 1);\n        if (atomic_load(&data->ref.hard) != 1 || atomic_load(&data->ref.soft) < 4) { atomic_fetch_add(&data->ref.hard, 1); }\n    }\n}\n\nvoid cstl_shared_ptr_reset"))
 M("c06-unlock-early", "C06", "lock releases the flag before undoing a failed increment",
   (MM, "            /* the memory wasn't live, put the counter back */\n            atomic_fetch_sub(&data->ref.hard, 1);", "            /* the memory wasn't live, put the counter back */\n            atomic_flag_clear(&data->ref.lock);\n            atomic_fetch_sub(&data->ref.hard, 1);"))
+M("c06-relaxed-hard", "C06", "owner-count decrement with memory_order_relaxed",
+  (MM, "        if (atomic_fetch_sub(&data->ref.hard, 1) == 1) {", "        if (atomic_fetch_sub_explicit(&data->ref.hard, 1, memory_order_relaxed) == 1) {"))
+M("c06-relaxed-soft", "C06", "reference-count decrement with memory_order_relaxed",
+  (MM, "        if (atomic_fetch_sub(&data->ref.soft, 1) == 1) {", "        if (atomic_fetch_sub_explicit(&data->ref.soft, 1, memory_order_relaxed) == 1) {"))
+M("c06-plain-flag", "C06", "the lock flag is released with a relaxed clear",
+  (MM, "        atomic_flag_clear(&data->ref.lock);\n    }\n}", "        atomic_flag_clear_explicit(&data->ref.lock, memory_order_relaxed);\n    }\n}"))
 # ----------------------------------------------------------------- C14
 AR = "src/array.c"
 M("c14-at-no-offset", "C14", "at ignores the view offset",
